@@ -1655,11 +1655,15 @@ nni_pipe_start(nni_pipe *p)
 
 	// NB: starting the pipe can actually cause the pipe
 	// to be deallocated before this returns (if it is rejected)
+	nni_pipe_hold(p);
+	nni_atomic_set_bool(&p->p_starting, true);
 	if (p->p_listener) {
 		listener_start_pipe(p->p_listener, p);
 	} else if (p->p_dialer) {
 		dialer_start_pipe(p->p_dialer, p);
 	}
+	nni_atomic_set_bool(&p->p_starting, false);
+	nni_pipe_rele(p);
 }
 
 void
